@@ -10,11 +10,11 @@ def run(tier):
     args = ["--tier", tier, "--dev", "2" if thorough else "1", "--batch", "3" if thorough else "2",
             "--classes", str(classes), "--deadline", str(1500 if thorough else 150), "--dev-immediate", "1" if thorough else "0"]
     if thorough:
-        fam = en.systematic(4)
+        fam = en.systematic(4) + en.spines()
         for p in fam:
             p.args = ["--dev", "1", "--batch", "2"]
         progs += fam
-        chk.coverage["systematic_family"] = {"programs": len(fam), "rule": "all ordered trees with <= 4 states: every region kind headed, composite/resumable/orthogonal also headless"}
+        chk.coverage["systematic_family"] = {"programs": len(fam), "rule": "all ordered trees with <= 4 states: every region kind headed, composite/resumable/orthogonal also headless; plus the spine family (all kind chains of depth 3 in two orientations, depth 4 over C/O/R)"}
     if not thorough:
         for p in progs:
             if p.name in ("mixed14", "ortho89", "nestutil"):
